@@ -201,7 +201,8 @@
         (let lp ((offset 0))
           (let ((src-len
                  (+ offset
-                    (read-bytevector! src in offset decode-src-length))))
+                    (let ((n (read-bytevector! src in offset decode-src-length)))
+                      (if (eof-object? n) 0 n)))))
             (cond
              ((= src-len decode-src-length)
               ;; read a full chunk: decode, write and loop
